@@ -153,7 +153,7 @@ var (
 	c01Proto = []string{"\x00absent", "netrpc", "grpc", "", "GRPC", "junk", "netrpc "}
 	c01Mux   = []string{"\x00absent", "true", "false", "1", "0", "T", "yes", "", "TRUE", "t"}
 	c01Wrap  = []string{"lf", "crlf", "lead-blank", "trail-blank", "tabs", "noeol-exit", "noeol-close", "noeol-open", "nul-prefix", "nul-inside", "oversize", "empty-line-first", "second-line", "only-newline", "empty", "blank-then-silence", "blanks-crlf-then-silence", "blank-lines-then-line"}
-	c01SetsL = []string{"legacy1", "versioned12", "v0", "both123", "versioned8_10"}
+	c01SetsL = []string{"legacy1", "versioned12", "v0", "both123", "versioned8_10", "versioned02"}
 	c01TLSL  = []string{"none", "static", "auto"}
 )
 
